@@ -1042,6 +1042,53 @@ fn check_catalogue(name: &str) -> Verdict {
     }
 }
 
+/// every swizzle over xyzw of length 1-4 on a float2/3/4 lvalue in four write positions: accepted exactly
+/// when all components exist and none is repeated
+fn swizzle_case(i: u64) -> (String, bool, String) {
+    let mut k = i as usize;
+    let mut take = |n: usize| {
+        let r = k % n;
+        k /= n;
+        r
+    };
+    let n = 2 + take(3);
+    let write = take(4);
+    let letters = if take(2) == 0 { ["x", "y", "z", "w"] } else { ["r", "g", "b", "a"] };
+    // 4 + 16 + 64 + 256 swizzles, shortest first
+    let mut sw = take(340);
+    let mut len = 1;
+    let mut block = 4;
+    while sw >= block {
+        sw -= block;
+        block *= 4;
+        len += 1;
+    }
+    let comps: Vec<usize> = (0..len).map(|j| (sw >> (2 * j)) & 3).collect();
+    let swz: String = comps.iter().map(|c| letters[*c]).collect();
+    let ok = comps.iter().all(|c| *c < n) && (0..len).all(|a| !comps[..a].contains(&comps[a]));
+    let vt = |l: usize| if l == 1 { "float".to_string() } else { format!("float{}", l) };
+    let value = if len == 1 { "1.5".to_string() } else { format!("float{}({})", len, (0..len).map(|j| format!("{}.0", j + 1)).collect::<Vec<_>>().join(", ")) };
+    let stmt = match write {
+        0 => format!("v.{} = {};", swz, value),
+        1 => format!("v.{} += {};", swz, value),
+        2 => format!("zsw(v.{});", swz),
+        _ => format!("v.{}++;", swz),
+    };
+    let src = format!("void zsw(out {} o) {{ o = {}; }}\nfloat{} f(float{} v) {{\n    {}\n    return v;\n}}\n", vt(len), value, n, n, stmt);
+    (src, ok, format!("float{}.{} write {}", n, swz, write))
+}
+
+fn check_swizzle(i: u64) -> Verdict {
+    let (src, ok, what) = swizzle_case(i);
+    match type_check_text(&src) {
+        Err(p) => Verdict::fail(format!("panic:{}", p), src),
+        Ok(Ok(_)) if !ok => Verdict::fail("ill-typed-accepted:swizzle-write", format!("{}: a write through a swizzle with a repeated or missing component was accepted\n{}", what, src)),
+        Ok(Err(d)) if ok => Verdict::fail("valid-program-rejected:swizzle-write", format!("{}: {}\n{}", what, d, src)),
+        Ok(Ok(_)) => Verdict::pass(Some(i), vec!["swizzle_write_accepted".into()]),
+        Ok(Err(_)) => Verdict::pass(Some(i), vec!["swizzle_write_rejected".into()]),
+    }
+}
+
 pub fn check_record(r: &Value) -> Verdict {
     match r["kind"].as_str().unwrap_or("") {
         "lint" => {
@@ -1049,6 +1096,7 @@ pub fn check_record(r: &Value) -> Verdict {
             lint_source(src, r["must_accept"].as_bool().unwrap_or(false))
         }
         "catalogue" => check_catalogue(r["name"].as_str().unwrap_or("")),
+        "swizzle" => check_swizzle(r["index"].as_u64().unwrap_or(0)),
         "inject" => {
             let base = r["base"].as_str().unwrap_or("");
             let name = r["violation"].as_str().unwrap_or("");
@@ -1061,7 +1109,7 @@ pub fn check_record(r: &Value) -> Verdict {
 
 pub fn run(ctx: &mut Ctx) {
     use proptest::prelude::*;
-    ctx.rule = "(1) IR lint: generated programs of the resource-free subset (always accepted, checked), every 1-2 operator expression tree over the whole operator table on int / float / mixed int-float-uint-bool operands (accepted or rejected; only accepted ones are linted), and the repository's own .rssl inputs are type checked; the resulting module is walked by an independent checker with structural types (operand types equal and of the required class for every operator, non-const lvalues for every write, call arity / argument types / out arguments, return types, constructor slots, initialiser shapes, conditions, subscripts, existing ids) and by RSSL's own Expression::get_type asserts. (2) Injection: 86 kinds of single typing violations (writes to const incl. members / elements / swizzles of const objects and static const globals, writes to rvalues, rvalue or const out / inout arguments, argument count and type errors, return type errors, non-boolean conditions, non-integer switch values, operator operand classes, initialiser shapes, ...) are placed in 15 expression / 5 statement / 3 return contexts inside a function appended before or after a generated program or as a struct method; the program with the violation must be rejected with a diagnostic and its valid twin must be accepted. A catalogue of 10 resource-related pairs (writes to read-only buffers, textures and constant buffers, resources as operands) is checked the same way. Non-trivial: lint = module with at least 3 expressions; injection = violation rejected and twin accepted. Distinct = hash of the source.".into();
+    ctx.rule = "(1) IR lint: generated programs of the resource-free subset (always accepted, checked), every 1-2 operator expression tree over the whole operator table on int / float / mixed int-float-uint-bool operands (accepted or rejected; only accepted ones are linted), and the repository's own .rssl inputs are type checked; the resulting module is walked by an independent checker with structural types (operand types equal and of the required class for every operator, non-const lvalues for every write, call arity / argument types / out arguments, return types, constructor slots, initialiser shapes, conditions, subscripts, existing ids) and by RSSL's own Expression::get_type asserts. (2) Injection: 86 kinds of single typing violations (writes to const incl. members / elements / swizzles of const objects and static const globals, writes to rvalues, rvalue or const out / inout arguments, argument count and type errors, return type errors, non-boolean conditions, non-integer switch values, operator operand classes, initialiser shapes, ...) are placed in 15 expression / 5 statement / 3 return contexts inside a function appended before or after a generated program or as a struct method; the program with the violation must be rejected with a diagnostic and its valid twin must be accepted. Writes through every swizzle of length 1-4 over xyzw / rgba on float2/3/4 in four write positions (=, +=, out argument, ++) must be accepted exactly when all components exist and none repeats (8 160 cases). A catalogue of 10 resource-related pairs (writes to read-only buffers, textures and constant buffers, resources as operands) is checked the same way. Non-trivial: lint = module with at least 3 expressions; injection = violation rejected and twin accepted. Distinct = hash of the source.".into();
     ctx.assumptions.push("the linter models the resource-free subset; object types, intrinsic signatures and matrices' aggregate initialisers are treated as opaque and counted".into());
     ctx.assumptions.push("a condition may have any numeric or enum type (it is converted where it is used); default argument values are stored unconverted and only need to be convertible".into());
     if !ctx.replay_tier(&check_record) {
@@ -1070,6 +1118,9 @@ pub fn run(ctx: &mut Ctx) {
     for c in CATALOGUE {
         ctx.run_one(&json!({"kind": "catalogue", "name": c.0}), &check_record);
     }
+    // ---- exhaustive: writes through every swizzle
+    let swizzle_total = (3 * 4 * 2 * 340) as u64;
+    ctx.run_enum("swizzle_write_table", swizzle_total, true, |i| json!({"kind": "swizzle", "index": i}), |i| check_record(&json!({"kind": "swizzle", "index": i})));
     // ---- exhaustive: every violation kind x context x placement on an empty base
     let n_ctx = CONTEXTS.len();
     let total = (VIOLATIONS.len() * n_ctx * 3) as u64;
